@@ -41,6 +41,12 @@ var c04Ctxs = []c04Ctx{
 	{"forrangeint", true, false, func(d, body string) string {
 		return "for r" + d + " := range n {\nprobe(5" + d + ")\n" + body + "\n}"
 	}},
+	{"forin", true, false, func(d, body string) string {
+		return "for w" + d + " in [1, 2, 3] {\nprobe(6" + d + ")\n" + body + "\n}"
+	}},
+	{"for3exprpost", true, false, func(d, body string) string {
+		return "q" + d + " := 0\nst" + d + " := func() { q" + d + " = q" + d + " + 1; return q" + d + " }\nfor ; q" + d + " < n; st" + d + "() {\nprobe(7" + d + ")\n" + body + "\n}"
+	}},
 	{"switch", false, false, func(d, body string) string {
 		return "switch c" + d + " {\ncase 1:\n" + body + "\ncase 2:\n 0\ndefault:\n 1\n}"
 	}},
@@ -73,6 +79,7 @@ var c04Leaves = []c04Leaf{
 	{"named-func", "func g(x) { x + 1 }\ng(a)", false, false},
 	{"switch-break", "switch b {\ncase 1:\n break\ncase 2:\n continue\n}\nprobe(81)", true, false},
 	{"value-less", "x := 1", false, false},
+	{"switch-switch-continue", "switch b {\ncase 1:\n switch a {\n case 2:\n  continue\n default:\n  break\n }\n}\nprobe(82)", true, false},
 }
 
 func c04Depth() int {
